@@ -744,6 +744,16 @@ func TestLargePayloads(t *testing.T) {
 	}
 }
 
+// TestSideBySide: independent encrypters/signers and objects on several goroutines at once
+// (compressed payloads large enough that an encryption takes a while).
+func TestSideBySide(t *testing.T) {
+	ev.Parallel(t, prop, "side-by-side", 1, 40, 8, func(t *rapid.T) ECase {
+		return ECase{Alg: rapid.SampledFrom([]string{"dir", "A128KW", "A256GCMKW"}).Draw(t, "kalg"), Enc: rapid.SampledFrom(encAlgs).Draw(t, "enc"), Zip: rapid.IntRange(0, 3).Draw(t, "zip") > 0,
+			Text: rapid.IntRange(0, 3).Draw(t, "text") == 0, Key: rapid.IntRange(0, 100).Draw(t, "key"), KFill: rapid.Uint64().Draw(t, "kfill"),
+			Size: rapid.SampledFrom([]int{200000, 1 << 20}).Draw(t, "size"), Fill: rapid.Uint64().Draw(t, "fill"), JSON: rapid.Bool().Draw(t, "json"), AAD: -1}
+	}, func(c ECase) error { _, e := runEncrypt(c); return e })
+}
+
 var recRandom = ev.New(prop, "random-objects",
 	"rapid-generated JWS/JWE cases over the same matrices with uniform payload sizes 0..600, drawn keys, serialisations, AAD lengths and 4 drawn bit positions per field; non-trivial = payload on a block boundary, "+
 		"or an EC key/signature with a leading zero byte, or a flip of the last bit of a field").Require("jws", "jwe", "block-edge", "last-bit", "sig-leading-zero")
@@ -1144,6 +1154,14 @@ func replayers() map[string]ev.Replayer {
 				return err
 			}
 			_, e := runSign(c)
+			return e
+		},
+		"side-by-side": func(raw json.RawMessage) error {
+			var c ECase
+			if err := json.Unmarshal(raw, &c); err != nil {
+				return err
+			}
+			_, e := runEncrypt(c)
 			return e
 		},
 		"jwe": func(raw json.RawMessage) error {
